@@ -1029,7 +1029,7 @@ func (g *Gen) systematicBurst() []*Step {
 			ops = append(ops, SSet(n, VStr("v")))
 		}
 		st := steps(ops...)
-		pat := []string{"ab*", "A*", "a_*", "a%*", "AB*", "a*"}[g.pick(6)]
+		pat := []string{"ab*", "A*", "a_*", "a%*", "AB*", "a*", "*b*", "*B*", "*ab*", "*_c*", "*B", "*c"}[g.pick(12)]
 		st = append(st, steps(KKeys(pat))...)
 		st = append(st, KeyIteration(pat, 0, []int{0, 1, 2, 5}[g.pick(4)]))
 		return append(st, steps(KDelete(names...))...)
